@@ -949,33 +949,37 @@ func (db *DB) getBPTRootTxIDPath(fID int64) string {
 }
 
 func (db *DB) getPendingMergeEntries(entry *Entry, pendingMergeEntries []*Entry) []*Entry {
-	if entry.Meta.ds == DataStructureBPTree {
-		if r, err := db.BPTreeIdx[string(entry.Meta.bucket)].Find(entry.Key); err == nil {
+	bucket := string(entry.Meta.bucket)
+
+	// a record of a transaction that never committed may name a bucket that
+	// has no index
+	if idx, ok := db.BPTreeIdx[bucket]; ok && entry.Meta.ds == DataStructureBPTree {
+		if r, err := idx.Find(entry.Key); err == nil {
 			if r.H.meta.Flag == DataSetFlag {
 				pendingMergeEntries = append(pendingMergeEntries, entry)
 			}
 		}
 	}
 
-	if entry.Meta.ds == DataStructureSet {
-		if db.SetIdx[string(entry.Meta.bucket)].SIsMember(string(entry.Key), entry.Value) {
+	if idx, ok := db.SetIdx[bucket]; ok && entry.Meta.ds == DataStructureSet {
+		if idx.SIsMember(string(entry.Key), entry.Value) {
 			pendingMergeEntries = append(pendingMergeEntries, entry)
 		}
 	}
 
-	if entry.Meta.ds == DataStructureSortedSet {
+	if idx, ok := db.SortedSetIdx[bucket]; ok && entry.Meta.ds == DataStructureSortedSet {
 		keyAndScore := strings.Split(string(entry.Key), SeparatorForZSetKey)
 		if len(keyAndScore) == 2 {
 			key := keyAndScore[0]
-			n := db.SortedSetIdx[string(entry.Meta.bucket)].GetByKey(key)
+			n := idx.GetByKey(key)
 			if n != nil {
 				pendingMergeEntries = append(pendingMergeEntries, entry)
 			}
 		}
 	}
 
-	if entry.Meta.ds == DataStructureList {
-		items, _ := db.ListIdx[string(entry.Meta.bucket)].LRange(string(entry.Key), 0, -1)
+	if idx, ok := db.ListIdx[bucket]; ok && entry.Meta.ds == DataStructureList {
+		items, _ := idx.LRange(string(entry.Key), 0, -1)
 		ok := false
 		if entry.Meta.Flag == DataRPushFlag || entry.Meta.Flag == DataLPushFlag {
 			for _, item := range items {
